@@ -14,6 +14,7 @@ func init() {
 	extraOps["bitset"] = opBitset
 	extraOps["descmap"] = opDescMap
 	extraOps["unknown"] = opUnknown
+	extraOps["unknownops"] = opUnknownOps
 	extraOps["dispatch"] = opDispatch
 	extraOps["api3"] = opAPI3
 	extraOps["badarg"] = opBadArg
@@ -118,6 +119,36 @@ func opUnknown(a []*sx) string {
 		adds = append(adds, [2]int{atoi(r.list[0]), atoi(r.list[1])})
 	}
 	return "(ok " + hexs(string(hkUnknown(b, adds))) + ")"
+}
+
+// unknownops HEX (op x y) ...: one pooled recorder through Reset / Add / Copy / Size
+func opUnknownOps(a []*sx) string {
+	if !hooksAvailable {
+		return noHooks
+	}
+	b, _ := hex.DecodeString(a[0].atom)
+	ops := make([][3]int, 0, len(a))
+	for _, r := range a[1:] {
+		o := [3]int{atoi(r.list[0]), 0, 0}
+		if len(r.list) > 2 {
+			o[1], o[2] = atoi(r.list[1]), atoi(r.list[2])
+		}
+		ops = append(ops, o)
+	}
+	var sb strings.Builder
+	func() {
+		defer func() {
+			if r := recover(); r != nil {
+				sb.WriteString(" panic")
+			}
+		}()
+		sb.WriteString("(ok")
+		for _, o := range hkUnknownOps(b, ops) {
+			sb.WriteString(" " + hexs(string(o)))
+		}
+	}()
+	sb.WriteString(")")
+	return sb.String()
 }
 
 func opDispatch(a []*sx) string {
